@@ -154,7 +154,7 @@ def wellformed_problems(comp, z, first, last):
 
 
 # ---------------------------------------------------------------- alignment under the known mechanisms
-def align(prov, src, gen_rows, init_state):
+def align(prov, src, gen_rows, init_state, hi):
     """Predict the generated table from the source table under the known mechanisms and compare.
     -> (ok, explained windows [(lo, hi, key, generated-state-inside)], problem text)"""
     windows = []
@@ -171,6 +171,8 @@ def align(prov, src, gen_rows, init_state):
     n = len(S)
     while i < n:
         T, before, after = S[i]
+        if T >= hi:
+            break           # beyond the window: only looked at as the end of an excursion
         if before[0] == after[0]:
             # mechanism: the search watches utcoffset only - an abbreviation/DST-flag change at constant offset is never emitted
             nxt = S[i + 1][0] if i + 1 < n else None
@@ -260,7 +262,9 @@ def check_case(ctx, case):
         return
     lo = local_midnight_utc(prov, tz, date(*first))
     hi = local_midnight_utc(prov, tz, date(*last))
-    src = source_table(prov, tz, z, lo + timedelta(seconds=1), hi)
+    # the table is taken 70 days beyond the window: an excursion that starts inside the window can end after it
+    src_ext = source_table(prov, tz, z, lo + timedelta(seconds=1), hi + timedelta(days=70))
+    src = [r for r in src_ext if r[0] < hi]
     ctx.nontrivial(len(src) >= 1)
     ctx.count("source-transitions", len(src))
     r5def = component_def(comp)
@@ -270,7 +274,7 @@ def check_case(ctx, case):
         st = (o["to"], o["name"], o["kind"] == "STANDARD")
         if not gen_rows or gen_rows[-1][1] != st or True:
             gen_rows.append((t, st))
-    ok, windows, problem = align(prov, src, gen_rows, state_at(tz, lo))
+    ok, windows, problem = align(prov, src_ext, gen_rows, state_at(tz, lo), hi)
     if not ok:
         ctx.fail("table-unexplained", observed=problem, expected="the source zone's transitions (allowing only the known mechanisms)",
                  detail=comp.to_ical().decode()[:3000])
